@@ -28,9 +28,17 @@ cfg = {
                                -1 = Box(-1, 1, (), float32) (a scalar continuous action),
   "rev_dicts": bool            build the truncation / reward dicts in reversed agent order
                                (dict order is not part of the PettingZoo API),
+  "layout":  "c" | "transposed" | "moveaxis" | "fortran" | "strided" | "negstride"
+                               memory layout of every observation array handed out: same shape, dtype and
+                               values, but a non-C-contiguous VIEW (what `frame.transpose(2, 0, 1)`, `.T`,
+                               `x[..., ::2]`, `x[::-1]` produce in real environments),
+  "delay_ms": float            the environment sleeps that long in every step() (so that the completion
+                               order of the worker processes can be scripted),
 }
 """
 from __future__ import annotations
+
+import time
 
 import numpy as np
 from gymnasium import spaces
@@ -57,6 +65,31 @@ def decode_chunk(flat) -> tuple | None:
         if vals[j] != (base[j % 6] + j // 6) % 100:
             return None
     return tuple(base)
+
+
+LAYOUTS = ("c", "transposed", "moveaxis", "fortran", "strided", "negstride")
+
+
+def lay_out(arr: np.ndarray, layout: str) -> np.ndarray:
+    """the same array (shape, dtype, values) as a view with another memory layout"""
+    if layout in (None, "c") or arr.ndim == 0:
+        return arr
+    if layout == "transposed":                       # Fortran-ordered view, like `x.T` of a C array
+        out = np.ascontiguousarray(arr.T).T
+    elif layout == "moveaxis":                       # channels moved to the front of an HWC frame
+        out = arr if arr.ndim < 2 else np.moveaxis(np.ascontiguousarray(np.moveaxis(arr, 0, -1)), -1, 0)
+    elif layout == "fortran":
+        out = np.asfortranarray(arr)
+    elif layout == "strided":                        # every second element of a wider buffer
+        buf = np.zeros(arr.shape[:-1] + (2 * arr.shape[-1],), dtype=arr.dtype)
+        buf[..., ::2] = arr
+        out = buf[..., ::2]
+    elif layout == "negstride":                      # negative stride along the first axis
+        out = np.ascontiguousarray(arr[::-1])[::-1]
+    else:
+        raise ValueError(layout)
+    assert out.shape == arr.shape and out.dtype == arr.dtype and np.array_equal(out, arr)
+    return out
 
 
 def flag_pair(kind: str, a: int) -> tuple[bool, bool]:
@@ -109,6 +142,8 @@ class ScriptedParallelEnv(ParallelEnv):
         self.kinds = list(cfg["kinds"])
         self.leave = [int(x) for x in cfg.get("leave", [0] * len(self.possible_agents))]
         self.rev = bool(cfg.get("rev_dicts", False))
+        self.layout = cfg.get("layout", "c")
+        self.delay = float(cfg.get("delay_ms", 0) or 0) / 1000.0
         self._obs_spaces = {ag: agent_space(s) for ag, s in zip(self.possible_agents, cfg["obs"])}
         self._act_spaces = {
             ag: (spaces.Discrete(N_DISCRETE) if k == 0
@@ -144,7 +179,7 @@ class ScriptedParallelEnv(ParallelEnv):
         for k, (_, shape, dtype) in enumerate(spec["parts"]):
             n = int(np.prod(shape)) if len(shape) else 1
             vals = chunk_values(self.env_id, self.episode, self.t, a, k, self.salt, n)
-            arrs.append(np.array(vals, dtype=np.dtype(dtype)).reshape(tuple(shape)))
+            arrs.append(lay_out(np.array(vals, dtype=np.dtype(dtype)).reshape(tuple(shape)), self.layout))
         if spec["kind"] in ("vector", "image"):
             return arrs[0]
         if spec["kind"] == "dict":
@@ -168,6 +203,8 @@ class ScriptedParallelEnv(ParallelEnv):
         return obs, infos
 
     def step(self, actions):
+        if self.delay:
+            time.sleep(self.delay)
         self.t += 1
         t, L, kind = self.t, self.ep_len(), self.ep_kind()
         order = [(a, ag) for a, ag in enumerate(self.possible_agents) if self.present(a, t)]
